@@ -49,6 +49,16 @@ class ObsProbe:
     def close(self):
         self.inner.close()
 
+    # everything else the driver may look at or set on an observer goes to the real one
+    def __getattr__(self, attr):
+        return getattr(object.__getattribute__(self, "inner"), attr)
+
+    def __setattr__(self, attr, value):
+        if attr in ("inner", "name", "sink"):
+            object.__setattr__(self, attr, value)
+        else:
+            setattr(self.inner, attr, value)
+
 
 ROLE_OF = {"default_logger": "log", "default_trajectory": "traj", "default_restart": "restart"}
 ROLE_SHORT = {"logfile": "log", "trajectory": "traj", "restart_file": "restart"}
@@ -71,7 +81,7 @@ class Recorder:
         w = self.w[0]
         obs = w.mc.file_manager.observers[name].inner
         f = obs._file
-        c["file"] = f.name
+        c["file"] = f.key
         c["durable"] = f.durable
         c["pending"] = f._pending_len()
         c["step"] = w.mc.step_count
@@ -139,7 +149,7 @@ class C16(Campaign):
         chosen = [r for r in roles if rnd.random() < 0.8] or [rnd.choice(roles)]
         how = rnd.choice(["object", "object", "path", "path", "mixed"])
         for r in chosen:
-            files[r] = {"name": r + ".out", "as": how if how != "mixed" else rnd.choice(["object", "path"]), "mode": mode}
+            files[r] = {"name": r + ".out", "as": how if how != "mixed" else rnd.choice(["object", "path", "observer"]), "mode": mode}
         sc["files"] = files
         sc["bufsize"] = rnd.choice([16, 200, 8192, 8192, 1 << 20])
         if driver == "ForceBias":
@@ -264,6 +274,7 @@ class C16(Campaign):
         if only is None:
             self._resume_and_crash(sc, disk, calls)
             self._rerun_over_stale_files(sc, disk)
+            self._continue_after_close(sc)
         for k, kind, frac in points:
             if k >= nops:
                 continue
@@ -360,6 +371,46 @@ class C16(Campaign):
                     f"{'a line without newline; ' if not text.endswith(chr(10)) else ''}malformed rows {bad[:2]!r} (header has {ncol} columns)",
                     f"interrupted call #{fail_at}")
         res.cover.add(f"interrupted|{sc['driver']}|{sc['files'].get('logging_mode')}")
+
+    def _continue_after_close(self, sc):
+        """Fault: the user closes the simulation (its files) and then runs the same object again.  Whether the package
+        refuses that or supports it, what the first run wrote must survive: the log keeps its header and lines, the
+        trajectory its frames."""
+        res = self.res
+        disk, w, _rec = self._deploy(sc)
+        w.run()
+        if w.aborted or w.result.harness_error:
+            w.mc.close()
+            return
+        w.mc.close()
+        before = {n: f.durable for n, f in disk.files.items()}
+        outcome = "continued"
+        try:
+            with PathPatch(disk):
+                for step in w.mc.irun(2):
+                    if hasattr(step, "__iter__"):
+                        for _ in step:
+                            pass
+        except SimCrash:
+            raise
+        except Exception as e:  # noqa: BLE001 - refusing to continue on closed files is a legitimate answer
+            outcome = "refused:" + type(e).__name__
+        try:
+            w.mc.close()
+        except Exception:  # noqa: BLE001
+            pass
+        res.count("fault.run_again_after_close")
+        res.count("evaluations")
+        roles = {v["name"]: k for k, v in sc["files"].items() if isinstance(v, dict)}
+        for n, text in before.items():
+            role = roles.get(n, n)
+            if role not in ("logfile", "trajectory") or not text:
+                continue
+            got = disk.files[n].durable
+            if not got.startswith(text):
+                how = sc["files"].get(role, {}).get("as", "?")
+                self._v("output_of_first_run_destroyed_by_run_after_close", f"file={ROLE_SHORT.get(role, role)}|given_as={how}|mode={sc['files'].get('logging_mode', 'a')}",
+                        f"run, close, run again ({outcome}): {n} held {len(text)} characters, now {len(got)}, starting with {got[:60]!r}", "run_after_close")
 
     def _rerun_over_stale_files(self, sc, disk):
         """Fault: the same script is executed a second time in 'w' mode in a directory that still holds the files of the
